@@ -609,6 +609,80 @@ fn kill_part(rep: &mut Report, cfgs: &[Cfg], thorough: bool) -> (u64, std::colle
     (total, classes, samples)
 }
 
+/// The lease file is locked by another process while one message is handled (write lock and
+/// exclusive lock), then the server is restarted: every lease whose reply was produced must be in
+/// the file, and a message that got no reply must have left the file as it was.
+fn locked_case(st: &State, m: &MsgOp, exclusive: bool, cfgs: &[Cfg]) -> Result<Vec<Violation>, String> {
+    let (res, _post, reopened) = step_busy_reopen(st, m, cfgs, exclusive)?;
+    let op = Op::Msg(m.clone());
+    let mut case = case_json_from(st, &[&op], cfgs);
+    case["store_locked"] = json!(if exclusive { "exclusive" } else { "write" });
+    case["part"] = json!("locked");
+    let lock = if exclusive { "an exclusive" } else { "a write" };
+    let mut vs = vec![];
+    match &res {
+        StepResult::Reply(r) => {
+            let me = CLIENTS[m.client].identity();
+            if !reopened.iter().any(|row| row.ip == r.yiaddr && row.client == me && row.expiry > 0) {
+                vs.push(Violation::new("acknowledged-lease-lost", format!("while another process held {lock} lock on the lease file, {} was answered with {} -- after a restart the lease file has no live record of it (rows {})", CLIENTS[m.client].name, r.yiaddr, state_json(&reopened)), case).sig("part", "locked"));
+            }
+        }
+        StepResult::Error(_) => {
+            if reopened != *st {
+                vs.push(Violation::new("unanswered-message-changed-store", format!("while another process held {lock} lock on the lease file a message got no reply, but after a restart the file holds {} instead of {}", state_json(&reopened), state_json(st)), case).sig("part", "locked"));
+            }
+        }
+        StepResult::Panic(msg, loc) => vs.push(Violation::new("panic-while-locked", format!("handle_pkt panicked while the lease file was locked: {msg} at {loc}"), case).sig("part", "locked")),
+    }
+    Ok(vs)
+}
+
+fn locked_part(rep: &mut Report, cfgs: &[Cfg], thorough: bool) -> u64 {
+    use rayon::prelude::*;
+    let alpha = build_alphabet(cfgs, &AlphabetSpec { rfc4361_clients: false, cfgs: if thorough { &["K1", "K2", "K4"] } else { &["K1"] }, clients: 2, addrs: &["192.0.2.9"], ticks: &[] });
+    let msgs: Vec<&MsgOp> = alpha.ops.iter().filter_map(|o| if let Op::Msg(m) = o { Some(m) } else { None }).collect();
+    // states: the deep roots and everything one message away from the empty store
+    let mut states: Vec<State> = deep_roots();
+    for m in &msgs {
+        if let Ok((_, post)) = step(&vec![], &Op::Msg((*m).clone()), cfgs) {
+            if !states.contains(&post) {
+                states.push(post);
+            }
+        }
+    }
+    let results: Vec<(u64, Vec<Violation>, Option<String>)> = states
+        .par_iter()
+        .map(|st| {
+            let (mut n, mut vs, mut err) = (0u64, vec![], None);
+            for m in &msgs {
+                for exclusive in [false, true] {
+                    n += 1;
+                    match locked_case(st, m, exclusive, cfgs) {
+                        Ok(v) => vs.extend(v),
+                        Err(e) => err = Some(e),
+                    }
+                }
+            }
+            (n, vs, err)
+        })
+        .collect();
+    let mut n = 0;
+    let mut seen = std::collections::BTreeSet::new();
+    for (k, vs, err) in results {
+        n += k;
+        if let Some(e) = err {
+            rep.machinery_error(format!("store-locked part: {e}"));
+        }
+        for v in vs {
+            if seen.insert(v.oracle.clone()) || rep.violations.len() < 10 {
+                rep.violation(v);
+            }
+        }
+    }
+    rep.cov("store_locked_then_restart", json!({"states": states.len(), "messages": msgs.len(), "transitions": n, "rule": "every message of the alphabet on each root store and each store one message away from the empty one, on a file-backed store that a second connection keeps locked (BEGIN IMMEDIATE / BEGIN EXCLUSIVE, busy time-out 0) for the duration of the message; then the file is reopened by a fresh Pool: an answered lease must be there, an unanswered message must have changed nothing"}));
+    n
+}
+
 pub fn run(tier: &str, replay: Option<Value>) -> ! {
     let mut rep = Report::new("C18", if replay.is_some() { "quick" } else { tier }, "fault_enumeration");
     let cfgs = match all_cfgs() {
@@ -652,6 +726,20 @@ pub fn run(tier: &str, replay: Option<Value>) -> ! {
                 }
                 let _ = std::fs::remove_dir_all(&dir);
             }
+            Some("locked") => {
+                match (|| -> Result<Vec<Violation>, String> {
+                    let mut st: State = vec![];
+                    for r in case["initial_state"].as_array().cloned().unwrap_or_default() {
+                        st.push(Row { ip: r["ip"].as_str().ok_or("ip")?.parse().map_err(|e| format!("ip: {e}"))?, client: crate::common::util::unhex(r["client"].as_str().ok_or("client")?), start: r["start_rel"].as_i64().ok_or("start_rel")?, expiry: r["expiry_rel"].as_i64().ok_or("expiry_rel")? });
+                    }
+                    let op = op_from_json(case["ops"].get(0).ok_or("ops")?, &cfgs)?;
+                    let Op::Msg(m) = op else { return Err("not a message".into()) };
+                    locked_case(&st, &m, case["store_locked"].as_str() == Some("exclusive"), &cfgs)
+                })() {
+                    Ok(vs) => rep.violations_from(vs),
+                    Err(e) => rep.machinery_error(e),
+                }
+            }
             Some("restart") => {
                 let mut ops = vec![];
                 for o in case["history"].as_array().cloned().unwrap_or_default() {
@@ -693,6 +781,8 @@ pub fn run(tier: &str, replay: Option<Value>) -> ! {
     }
     let steps = steps + ll_steps;
     rep.cov("in_memory_differential", json!({"alphabet_ops": ll_alpha.ops.len(), "depth": ll_depth, "message_steps": ll_steps}));
+    let locked_n = locked_part(&mut rep, &cfgs, thorough);
+    let steps = steps + locked_n;
     let (up_n, up_classes) = upgrade_part(&mut rep, thorough);
     let (kills, kill_classes, samples) = kill_part(&mut rep, &cfgs, thorough);
     clock::unset();
